@@ -93,6 +93,10 @@ Clauses(ev) ==
                [] OTHER -> "C03:memory-view-differs"} ELSE {})
    \cup (IF ev.op = "save" /\ ~Has(ev, "exc") THEN SaveClauses(ev) ELSE {})
    \cup (IF ev.op = "read" /\ Has(ev, "same") /\ ~ev.same THEN {"C15:second-answer-differs"} ELSE {})
+   \* a read-only entry point (C15): every part of the document, the manifest included, has the
+   \* same identifier before and after the call, and the call answers the same when repeated
+   \cup (IF ev.op = "pure" /\ ev.before # ev.after THEN {"C15:read-changed-document"} ELSE {})
+   \cup (IF ev.op = "pure" /\ ~ev.same THEN {"C15:second-answer-differs"} ELSE {})
    \cup (IF Has(ev, "twin_view") /\ twin # <<>> /\ ~ViewOK(ev.twin_view, twin[1]) THEN {"C10:twin-changed"} ELSE {})
    \cup (IF ev.op = "save_twin" /\ ~Has(ev, "exc") /\ twin # <<>> THEN
             (IF DOMAIN ev.saved # DOMAIN twin[1] \/ \E p \in DOMAIN ev.saved \cap DOMAIN twin[1] : ev.saved[p].s # twin[1][p].s
